@@ -244,7 +244,7 @@ func (si *specInfo) spellings(base string, r apiRoute, thorough bool) []spelling
 		if len(bs) > 0 {
 			baseStr = join(bs)
 		}
-		reduced := pre != "" && !thorough // outside the base path, quick tier: core classes only
+		reduced := pre != "" // outside the base path: core classes only (plain, trailing slash, one `..` out of every prefix)
 		add(pre+"plain", "", join(all))
 		add(pre+"trailing-slash", "", join(all)+"/")
 		if !reduced {
